@@ -93,6 +93,41 @@ def eval_pipeline(case):
               sample={'time_rdsym': df['time_rdsym'].tolist(), 'volt_amp': df['volt_amp'].tolist()} if nt else None)
 
 
+def eval_aliased(case):
+    """The caller re-uses ONE pre-allocated array: it is analysed with decoy content, overwritten in place with the
+    real signal and analysed again; the second table must follow the definitions for the NEW content (a result may
+    depend only on the values of its arguments, not on the identity of the array object)."""
+    from bycycle.features import compute_features, compute_shape_features
+    from bycycle import Bycycle
+    letters, (centre, entry) = case[:-1], case[-1]
+    w = ''.join(letters)
+    o = S.resolve(('trough',) if centre == 'trough' else ())
+    sig = S.make_signal(w, o)
+    ok, why, ref = precondition(sig, o)
+    decoy = 2.0 * sig[::-1] + 1.0
+    ok2, _, _ = precondition(decoy, o)
+    if not ok or not ok2:
+        return SKIP(why or 'decoy precondition')
+    buf = np.empty(len(sig))
+    kw = S.call_kwargs(o)
+    sgn = {'centre': centre, 'via': 'aliased-buffer', 'entry': entry, 'devs': []}
+    bm = Bycycle(center_extrema=centre, thresholds=dict(S.T0))
+    for content in (decoy, sig):
+        buf[:] = content
+        if entry == 'compute_features':
+            df = compute_features(buf, o['fs'], o['f_range'], **kw)
+        elif entry == 'compute_shape_features':
+            df = compute_shape_features(buf, o['fs'], o['f_range'], center_extrema=centre)
+        else:
+            bm.fit(buf, o['fs'], o['f_range'])
+            df = bm.df_features
+    v = check_shape_table(df, sig, o, sgn)
+    if v is not None:
+        v['msg'] = 'after the same array object was overwritten in place: ' + v['msg']
+        return v
+    return OK(outcome=(w, centre, entry, table_hash(df, SHAPE_COLS + ['band_amp'])), nontrivial=True, evals=2)
+
+
 # ---- helper functions on synthetic tiling tables ---------------------------------------------------
 _TABLES = {}
 
@@ -204,6 +239,9 @@ def spaces(tier, seed):
                                 describe='durations / voltages / symmetry on every tiling table over every signal of length 6'))
         out.append(ProductSpace('bandamp-words', S.word_dims(S.alphabet(4), 2), eval_bandamp,
                                 describe='compute_band_amp on 2-letter words x every tiling on the even grid x n_cycles 1,2'))
+        ali = [(c, e) for c in ('peak', 'trough') for e in ('compute_features', 'compute_shape_features', 'Bycycle.fit')]
+        out.append(ProductSpace('aliased-buffer', S.word_dims(S.alphabet(4), 5) + [ali], eval_aliased,
+                                describe='one pre-allocated array analysed twice with different content (in-place overwrite) x centring x entry point'))
     else:
         al = S.alphabet(8, seed, extra=2)
         out.append(ProductSpace('W(10,5)xopts', S.word_dims(al, 5) + [OPT_T], eval_pipeline,
@@ -213,4 +251,6 @@ def spaces(tier, seed):
         out.append(ProductSpace('helpers{-1,0,1,2}^6', [[-1, 0, 1, 2]] * 6, eval_helpers,
                                 bounds={'tables_per_signal': len(tiling_tables(6))}))
         out.append(ProductSpace('bandamp-words', S.word_dims(S.alphabet(8), 2), eval_bandamp))
+        ali = [(c, e) for c in ('peak', 'trough') for e in ('compute_features', 'compute_shape_features', 'Bycycle.fit')]
+        out.append(ProductSpace('aliased-buffer', S.word_dims(S.alphabet(6), 5) + [ali], eval_aliased))
     return out
